@@ -693,6 +693,7 @@ static void run_cmd(int ntok, char **tok) {
         int pin = !strcmp(A(4), "pin"); int pht = (int)AI(5); long dloc = (long)AI(6), dsz = (long)AI(7);
         int preopt = !strcmp(A(4), "preopt"); int po_opt = (int)AI(5); long po_val = (long)AI(6);   /* an integer option set on the fresh context first (its result ignored, the error cleared) */
         int relead = !strcmp(A(4), "relead");   /* the context has read the lead of the ORIGINAL bytes before they change (state carried between calls) */
+        int retry = !strcmp(A(4), "retry");     /* advanced open; a refused zck_read_header is followed by zck_clear_error and a second zck_read_header on the same context */
         if(to > (long)n) to = (long)n;
         int mfd = memfd_create("hdrscan", 0);
         ssize_t w = __real_write(mfd, d, n); (void)w;
@@ -715,6 +716,10 @@ static void run_cmd(int ntok, char **tok) {
                 __real_lseek(mfd, 0, SEEK_SET);
                 if(relead) ok = zck_read_lead(z) && zck_read_header(z);
                 else if(preopt) { if(!zck_set_ioption(z, (zck_ioption)po_opt, po_val)) zck_clear_error(z); ok = zck_init_read(z, mfd); }
+                else if(retry) {
+                    ok = zck_init_adv_read(z, mfd) && zck_read_lead(z);
+                    if(ok) { ok = zck_read_header(z); if(!ok && zck_clear_error(z)) ok = zck_read_header(z); }
+                }
                 else if(!pin) ok = zck_init_read(z, mfd);
                 else {
                     char hex[200]; unsigned char cur[64];
